@@ -1,10 +1,12 @@
 package checks
 
 import (
+	"fmt"
 	"go/ast"
 	"go/constant"
 	"go/token"
 	"go/types"
+	"regexp"
 	"strings"
 
 	"golang.org/x/tools/go/ssa"
@@ -40,7 +42,10 @@ func init() {
 		Mutant{"checksum-mismatch-tolerated", bf, "if hex[i] != validationHex[i] {", "if hex[i] != validationHex[i] && i == 0 {", "mnemonic-gate"},
 		Mutant{"entropy-size-unchecked", bf, "err := validateEntropyBitSize(entropyBitLength)\n\tif err != nil {\n\t\treturn \"\", err\n\t}", "err := validateEntropyBitSize(entropyBitLength)\n\tif err != nil && sentenceLength == 0 {\n\t\treturn \"\", err\n\t}", "entropy-gate"},
 		Mutant{"entropy-size-constants", bf, "bitSize < 128 ||", "bitSize < 96 ||", "entropy-gate"},
-		Mutant{"negative-index-accepted", hf, "if idx < 0 {\n\t\t\treturn [32]byte{}, errors.New(", "if idx < -1 {\n\t\t\treturn [32]byte{}, errors.New(", "hd-segment-gate"},
+		Mutant{"negative-index-accepted", hf, "if idx < 0 || idx > math.MaxInt32 {", "if idx < -1 || idx > math.MaxInt32 {", "hd-segment-gate"},
+		Mutant{"refix-index-upper-bound-dropped", hf, "if idx < 0 || idx > math.MaxInt32 {", "if idx < 0 {", "hd-index-range tm2/pkg/crypto/hd.DerivePrivateKeyForPath"},
+		Mutant{"refix-hardenedint-bound-too-wide", hf, "if i > math.MaxInt32 {", "if i > math.MaxUint32 {", "hd-index-range tm2/pkg/crypto/hd.hardenedInt"},
+		Mutant{"refix-mnemonic-returns-checksummed", bf, "return entropyHex, nil", "return hex, nil", "mnemonic-returns-entropy"},
 		Mutant{"harden-always", hf, "data, chainCode = derivePrivateKey(data, chainCode, uint32(idx), harden)", "data, chainCode = derivePrivateKey(data, chainCode, uint32(idx), true)", "hd-hardened"},
 		Mutant{"hardened-bit", hf, "index = index | 0x80000000", "index = index | 0x40000000", "hd-hardened"},
 		Mutant{"master-key-label", hf, "[]byte(\"Bitcoin seed\")", "[]byte(\"bitcoin seed\")", "hd-constants"},
@@ -129,10 +134,11 @@ func c46armor(c *engine.Ctx, p *engine.Prog) {
 	}
 	c.Floor("unarmor-gate", ng, 7)
 
-	// --- kdf-agree
+	// --- kdf-agree (helper-transparent: the key handed to the cipher is rendered as a term)
 	nk := 0
 	encF, decF := c.MustFunc(A+"encryptPrivKey"), c.MustFunc(A+"decryptPrivKey")
-	var costs []int64
+	var costs []string
+	keyRe := regexp.MustCompile(`^tm2/pkg/crypto\.Sha256\(tm2/pkg/crypto/bcrypt\.GenerateFromPassword\((.+), conv:\[\]byte\((param#\d+)\), (\d+)\)@\d+#0\)@\d+$`)
 	for _, it := range []struct {
 		f   *engine.Fn
 		sym string
@@ -141,45 +147,52 @@ func c46armor(c *engine.Ctx, p *engine.Prog) {
 		if sf == nil {
 			continue
 		}
-		g := cjFirstCall(sf, "tm2/pkg/crypto/bcrypt.GenerateFromPassword")
 		s := cjFirstCall(sf, it.sym)
-		if g == nil || s == nil {
-			c.Check("kdf-agree", it.f.Name, it.f.Pos(), false, "bcrypt.GenerateFromPassword / symmetric call not found")
+		if s == nil {
+			c.Check("kdf-agree", it.f.Name, it.f.Pos(), false, "symmetric cipher call not found")
 			continue
 		}
 		nk++
-		cost, okCost := cjConstInt(g.Call.Args[2])
-		if okCost {
-			costs = append(costs, cost)
+		sy := cjNewSym(sf)
+		term := sy.Term(s.Call.Args[1], nil, 3)
+		m := keyRe.FindStringSubmatch(term)
+		okShape := m != nil
+		c.Check("kdf-agree", it.f.Name+" key = Sha256(bcrypt)", s.Pos(), okShape, "the symmetric key must be crypto.Sha256(bcrypt.GenerateFromPassword(salt, []byte(passphrase), cost)); it is "+term)
+		if !okShape {
+			continue
 		}
-		cv, _ := g.Call.Args[1].(*ssa.Convert)
-		var pw *ssa.Parameter
-		if cv != nil {
-			pw, _ = cv.X.(*ssa.Parameter)
-		}
-		c.Check("kdf-agree", it.f.Name+" bcrypt operands", g.Pos(), okCost && pw != nil && pw.Name() == "passphrase", "bcrypt must hash []byte(passphrase) with a constant cost")
-		sha, _ := s.Call.Args[1].(*ssa.Call)
-		okKey := sha != nil && cjCalleeName(sha) == "tm2/pkg/crypto.Sha256" && sha.Call.Args[0] == cjResult(g, 0)
-		c.Check("kdf-agree", it.f.Name+" key = Sha256(bcrypt)", s.Pos(), okKey, "the symmetric key must be crypto.Sha256 of the bcrypt output")
-		if it.f == encF {
-			rnd, _ := g.Call.Args[0].(*ssa.Call)
-			want, okw := cjIntConst(p, "tm2/pkg/crypto/bcrypt.maxSaltSize")
-			okSalt := false
-			if rnd != nil && cjCalleeName(rnd) == "tm2/pkg/crypto.CRandBytes" && okw {
-				if k, ok := cjConstInt(rnd.Call.Args[0]); ok && k == want {
-					okSalt = true
+		salt, pass, cost := m[1], m[2], m[3]
+		costs = append(costs, cost)
+		// the password operand is a string parameter of the function
+		okPass := false
+		for k, pr := range sf.Params {
+			if fmt.Sprintf("param#%d", k) == pass {
+				if b, ok := pr.Type().Underlying().(*types.Basic); ok && b.Kind() == types.String {
+					okPass = true
 				}
 			}
-			// the salt handed back is the one hashed
+		}
+		c.Check("kdf-agree", it.f.Name+" bcrypt operands", s.Pos(), okPass, "bcrypt must hash []byte(<the passphrase parameter>) with a constant cost")
+		if it.f == encF {
+			want, okw := cjIntConst(p, "tm2/pkg/crypto/bcrypt.maxSaltSize")
+			okSalt := okw && regexp.MustCompile(fmt.Sprintf(`^tm2/pkg/crypto\.CRandBytes\(%d\)@\d+$`, want)).MatchString(salt)
+			// the salt handed back is the one hashed (same call instance)
 			for _, b := range sf.Blocks {
-				if r, ok := b.Instrs[len(b.Instrs)-1].(*ssa.Return); ok && (len(r.Results) != 2 || r.Results[0] != g.Call.Args[0]) {
+				if r, ok := b.Instrs[len(b.Instrs)-1].(*ssa.Return); ok && (len(r.Results) != 2 || sy.Term(r.Results[0], nil, 3) != salt) {
 					okSalt = false
 				}
 			}
-			c.Check("kdf-agree", it.f.Name+" salt", g.Pos(), okSalt, "the salt must be CRandBytes(bcrypt.maxSaltSize) and be returned for the header")
+			c.Check("kdf-agree", it.f.Name+" salt", s.Pos(), okSalt, "the salt must be CRandBytes(bcrypt.maxSaltSize) and be returned for the header; it is "+salt)
 		} else {
-			sp, _ := g.Call.Args[0].(*ssa.Parameter)
-			c.Check("kdf-agree", it.f.Name+" salt", g.Pos(), sp != nil && sp.Name() == "saltBytes", "decrypt must hash with the stored salt parameter")
+			okSalt := false
+			for k, pr := range sf.Params {
+				if fmt.Sprintf("param#%d", k) == salt {
+					if _, ok := pr.Type().Underlying().(*types.Slice); ok {
+						okSalt = true
+					}
+				}
+			}
+			c.Check("kdf-agree", it.f.Name+" salt", s.Pos(), okSalt, "decrypt must hash with the stored salt parameter; it uses "+salt)
 		}
 	}
 	c.Check("kdf-agree", "bcrypt cost encrypt == decrypt", token.NoPos, len(costs) == 2 && costs[0] == costs[1], "both sides must use the same cost constant")
@@ -565,33 +578,39 @@ func c46hd(c *engine.Ctx, p *engine.Prog) {
 	const H = "tm2/pkg/crypto/hd."
 	dv := c.MustFunc(H + "DerivePrivateKeyForPath")
 	dk := c.MustFunc(H + "derivePrivateKey")
-	// --- hd-segment-gate
+	// --- hd-segment-gate (the parse may live in a private helper: follow the index value to its origin)
 	ns := 0
+	nh := 0
 	for _, sf := range cjWithAnon(cjSSA(c, p, dv)) {
 		for _, d := range cjSSACalls(sf, H+"derivePrivateKey") {
 			ns++
-			var conv ssa.Value = d.Call.Args[2]
-			var idx ssa.Value
-			if cv, ok := conv.(*ssa.Convert); ok {
-				idx = cv.X
+			conv, parse, chainOK := c46Origin(d.Call.Args[2], d.Block(), 2)
+			okParse, okNeg := false, false
+			if conv != nil && parse != nil && chainOK {
+				of := conv.Parent()
+				idx := conv.X
+				okParse = cjGated(cjResult(parse, 1), conv.Block())
+				okNeg = cjCmpGate(of, conv.Block(), token.GEQ, func(v ssa.Value) bool { return v == idx }, func(v ssa.Value) bool { k, ok := cjConstInt(v); return ok && k == 0 }) ||
+					cjCalleeName(parse) == "strconv.ParseUint"
 			}
-			var parse *ssa.Call
-			if e, ok := idx.(*ssa.Extract); ok {
-				parse, _ = e.Tuple.(*ssa.Call)
-			}
-			okParse := parse != nil && strings.HasPrefix(cjCalleeName(parse), "strconv.") && cjGated(cjResult(parse, 1), d.Block())
-			c.Check("hd-segment-gate", dv.Name+" parse error returns before deriving", d.Pos(), okParse, "derivePrivateKey's index must come from a strconv parse whose nil-error edge dominates the derivation")
-			okNeg := idx != nil && (cjCmpGate(sf, d.Block(), token.GEQ, func(v ssa.Value) bool { return v == idx }, func(v ssa.Value) bool { k, ok := cjConstInt(v); return ok && k == 0 }) ||
-				(parse != nil && cjCalleeName(parse) == "strconv.ParseUint"))
+			c.Check("hd-segment-gate", dv.Name+" parse error returns before deriving", d.Pos(), okParse, "derivePrivateKey's index must come (directly or through a helper whose error is tested) from a strconv parse whose nil-error edge dominates its use")
 			c.Check("hd-segment-gate", dv.Name+" negative index rejected", d.Pos(), okNeg, "derivation must be reached only when idx >= 0")
+			// hardened flag: a `'` suffix test, possibly computed in a helper
+			nh++
+			term := cjNewSym(sf).Term(d.Call.Args[3], nil, 3)
+			okH := regexp.MustCompile(`^strings\.HasSuffix\(.+, "'"\)@\d+$`).MatchString(term) || regexp.MustCompile(`^\(.+\[.*\] == "'"\)$`).MatchString(term)
+			c.Check("hd-hardened", dv.Name+" hardened flag from apostrophe suffix", d.Pos(), okH, "the flag passed to derivePrivateKey must be the `'` suffix test of the path segment; it is "+term)
 		}
 	}
 	c.Floor("hd-segment-gate", ns, 1)
 
 	// --- hd-index-range: narrowing of a parsed int to uint32 needs an upper bound < 2^31 (the hardened bit is OR-ed on top)
 	nr := 0
-	for _, f := range []*engine.Fn{dv, c.MustFunc(H + "hardenedInt")} {
-		for _, sf := range cjWithAnon(cjSSA(c, p, f)) {
+	for _, f := range p.FuncsIn("tm2/pkg/crypto/hd") {
+		if f.Obj == nil {
+			continue
+		}
+		for _, sf := range cjWithAnon(p.SSAFunc(f)) {
 			for _, b := range sf.Blocks {
 				for _, in := range b.Instrs {
 					cv, ok := in.(*ssa.Convert)
@@ -632,38 +651,7 @@ func c46hd(c *engine.Ctx, p *engine.Prog) {
 	}
 	c.Floor("hd-index-range", nr, 2)
 
-	// --- hd-hardened
-	nh := 0
-	if dv != nil {
-		info := dv.Info()
-		for _, s := range dv.CallsTo(H + "derivePrivateKey") {
-			nh++
-			ok := false
-			if len(s.Call.Args) == 4 {
-				if ho := engine.ObjOf(info, s.Call.Args[3]); ho != nil {
-					engine.InspectBody(dv, func(n ast.Node) {
-						as, isAs := n.(*ast.AssignStmt)
-						if !isAs || len(as.Lhs) != 1 || len(as.Rhs) != 1 || engine.ObjOf(info, as.Lhs[0]) != ho {
-							return
-						}
-						switch r := ast.Unparen(as.Rhs[0]).(type) {
-						case *ast.BinaryExpr:
-							if tv, has := info.Types[r.Y]; has && tv.Value != nil && r.Op == token.EQL && tv.Value.Kind() == constant.String && constant.StringVal(tv.Value) == "'" {
-								ok = true
-							}
-						case *ast.CallExpr:
-							if st := dv.SiteOf(r); st != nil && st.CalleeName() == "strings.HasSuffix" && len(r.Args) == 2 {
-								if tv, has := info.Types[r.Args[1]]; has && tv.Value != nil && constant.StringVal(tv.Value) == "'" {
-									ok = true
-								}
-							}
-						}
-					})
-				}
-			}
-			c.Check("hd-hardened", dv.Name+" hardened flag from apostrophe suffix", s.Pos(), ok, "the flag passed to derivePrivateKey must be the variable defined by the `'` suffix test")
-		}
-	}
+	// --- hd-hardened (continued)
 	if dk != nil {
 		info := dk.Info()
 		g := dk.Graph()
@@ -776,4 +764,40 @@ func c46hd(c *engine.Ctx, p *engine.Prog) {
 		c.Check("hd-constants", f.Name+" addition modulo the secp256k1 group order", f.Pos(), ok && okMod, "child key = (IL + parent) mod n with n = S256().N")
 	}
 	c.Floor("hd-constants", nc, 4)
+}
+
+// c46Origin follows an index value back to `uint32(<strconv parse result>)`:
+// directly, or through in-program helpers (result k of a call whose verdict
+// gates `target`, taken from the helper's only success return).
+func c46Origin(v ssa.Value, target *ssa.BasicBlock, depth int) (*ssa.Convert, *ssa.Call, bool) {
+	switch x := v.(type) {
+	case *ssa.Convert:
+		if e, ok := x.X.(*ssa.Extract); ok {
+			if parse, ok := e.Tuple.(*ssa.Call); ok && strings.HasPrefix(cjCalleeName(parse), "strconv.") {
+				return x, parse, true
+			}
+		}
+	case *ssa.Extract:
+		call, ok := x.Tuple.(*ssa.Call)
+		if !ok || depth <= 0 {
+			return nil, nil, false
+		}
+		h := cjBody(call)
+		if h == nil {
+			return nil, nil, false
+		}
+		if !cjGated(cjResult(call, cjLastIdx(call)), target) {
+			return nil, nil, false
+		}
+		res := cjSuccessResult(h, x.Index)
+		if res == nil {
+			return nil, nil, false
+		}
+		blk := target
+		if in, ok := res.(ssa.Instruction); ok {
+			blk = in.Block()
+		}
+		return c46Origin(res, blk, depth-1)
+	}
+	return nil, nil, false
 }
